@@ -1471,3 +1471,13 @@ Proof.
   intros H. rewrite (frombuf_header m (wf_hdrb_WFh m H)).
   unfold vhdr_of, hdr_of. destruct (a_visor m); reflexivity.
 Qed.
+
+(* a member whose data range is cut off by the end of the file is refused, never returned short *)
+Lemma extract_short f t :
+  has_data (t_type t) = true -> 0 < t_size t -> blen f < t_data t + t_size t -> extract f t = Raises.
+Proof.
+  intros Hd Hs Hcut. unfold extract. rewrite Hd.
+  destruct (Z.ltb_spec (t_size t) 0); [lia|].
+  destruct (Z.eqb_spec (t_size t) 0); [lia|].
+  destruct (Z.leb_spec (t_data t + t_size t) (blen f)); [lia|reflexivity].
+Qed.
